@@ -945,27 +945,31 @@ def rule_window_complete(ctx):
     ctx.floor("call sites of fuzzy_match_optimal", n, 3)
 
 
-def needle_walks(facts, fn, needle_local):
+def needle_walks(facts, fn, is_needle):
     """Places where `fn` (after helper folding) establishes that every character of needle[1..] occurs in order:
-    [(header, success_block, style)].
+    [(header, success_block, style)].  `is_needle(e)`: does the expression denote the needle (or a view of it)?
       style 'needle': a loop over needle[1..] (any spelling) whose body can leave with None; success = loop exhaustion.
-      style 'haystack': a loop over (part of) the haystack that advances an iterator over needle[1..]; it succeeds on the
-                        edge where that iterator is exhausted, and its own exhaustion leads to `return None`."""
+      style 'haystack': a loop over (part of) the haystack that advances an iterator over needle[1..] behind an equality
+                        test; it succeeds on the edge where that iterator is exhausted.
+      style 'fold': try_fold / try_for_each over needle[1..] with a closure that can say None, result `?`-ed.
+      style 'empty-tail': the first next() of an iterator over needle[1..] says None."""
     from props.c11 import for_loops
+    if isinstance(is_needle, int):
+        nl_ = is_needle
 
-    def is_needle(e, depth=0):
-        e = strip_casts(e)
-        if depth > 12 or not isinstance(e, tuple) or not e:
+        def is_needle(e, depth=0):
+            e = strip_casts(e)
+            if depth > 12 or not isinstance(e, tuple) or not e:
+                return False
+            if e[0] == "arg":
+                return e[1] == nl_
+            if e[0] in ("ref", "deref", "field", "downcast"):
+                return is_needle(e[1], depth + 1)
+            if e[0] == "cast":
+                return is_needle(e[2], depth + 1)
+            if e[0] == "call" and e[2]:
+                return is_needle(e[2][0], depth + 1)
             return False
-        if e[0] == "arg":
-            return e[1] == needle_local
-        if e[0] in ("ref", "deref", "field", "downcast"):
-            return is_needle(e[1], depth + 1)
-        if e[0] == "cast":
-            return is_needle(e[2], depth + 1)
-        if e[0] == "call" and e[2]:
-            return is_needle(e[2][0], depth + 1)
-        return False
 
     def needle_tail(e):
         for x in walk(e):
@@ -1015,6 +1019,28 @@ def needle_walks(facts, fn, needle_local):
         if inner:
             for x in inner:
                 out.append((h, x, "haystack"))
+    from common import iter_pipeline
+    for bi, t in fn.calls(lambda t: any(str(t.get("fn")).endswith(x) for x in ("Iterator::try_fold", "Iterator::try_for_each"))):
+        st = iter_pipeline(fn, t)
+        if not st or st[0][0] != "source" or not needle_tail(st[0][2]):
+            continue
+        if any(not k.startswith("total:") or k == "total:rev" for k, c_, e_ in st[1:]):
+            continue
+        clo = [fn.expr_of_operand(a) for a in t["args"][1:]]
+        clo = [c_ for c_ in clo if c_[0] == "closure"]
+        if not clo:
+            continue
+        cf = get_fn(facts, fn.b["crate"], clo[0][1])
+        if not any(cf.blocks[b_]["term"]["k"] == "call" and callee(cf.blocks[b_]["term"]).endswith("Try>::branch") for b_ in range(len(cf.blocks))):
+            continue
+        cid = (bi, t["dest"]["l"])
+        for b2, t2 in fn.calls(lambda t_: callee(t_).endswith("Try>::branch")):
+            if any(x[0] == "call" and len(x) > 4 and x[4] == cid for x in walk(fn.expr_of_operand(t2["args"][0]))) and t2["target"] is not None:
+                sw = fn.blocks[t2["target"]]["term"]
+                if sw["k"] == "switch":
+                    cont = [bb for v, bb in sw["arms"] if v == 0]
+                    if cont:
+                        out.append((bi, cont[0], "fold"))
     # needle[1..] is empty: the first `next()` of an iterator over it (outside any loop) says None -- nothing to walk
     in_loops = set()
     for h, body, srcs in fn.loops():
@@ -1030,23 +1056,13 @@ def needle_walks(facts, fn, needle_local):
     return out
 
 
-def rule_greedy_complete(ctx):
-    """The greedy matcher is a decider too: it hands [start, end) to the never-rejecting `calculate_score`.  Unless both
-    strings are ASCII (then prefilter_ascii has already found every needle character), every path to that call passes the
-    success exit of a complete walk over needle[1..]; a window taken on trust from the caller (whose non-ASCII prefilter
-    only looked at the first and last character) is not a match."""
-    facts = ctx.facts
-    fn = get_fn(facts, M, "fuzzy_greedy::<impl Matcher>::fuzzy_match_greedy_")
-    nl = [l for l in range(1, fn.arg_count + 1) if fn.names.get(l) == "needle"]
-    if not nl:
-        raise Inconclusive("fuzzy_match_greedy_: no `needle` parameter")
-    walks = needle_walks(facts, fn, nl[0])
-    ctx.floor("complete walks over needle[1..] in the greedy matcher", len(walks), 1)
+def _walk_bypass(facts, fn, sinks, is_needle):
+    """Sinks of `fn` (blocks) that are reachable from its entry without passing the success exit of a complete walk over
+    needle[1..], for some assignment of the `<X as Char>::ASCII` constants other than all-true.
+    Returns (bad blocks, number of walk exits)."""
+    walks = needle_walks(facts, fn, is_needle)
     succ = set(w[1] for w in walks)
-    sinks = [bi for bi, t in fn.calls(lambda t: callee(t) == "score::<impl Matcher>::calculate_score")]
-    if not sinks:
-        raise Inconclusive("fuzzy_match_greedy_: no calculate_score call")
-
+    sinks = list(sinks)
     def ascii_key(bi):
         """the `<X as Char>::ASCII` constant a switch tests, if it tests one"""
         t = fn.blocks[bi]["term"]
@@ -1159,16 +1175,98 @@ def rule_greedy_complete(ctx):
         if hit is not None:
             bad.append((hit, dict(zip(keys, vals))))
     if bad and len(keys) > 2:
-        raise Inconclusive("fuzzy_match_greedy_: %d different ASCII constants guard the walk (%s)" % (len(keys), keys))
+        raise Inconclusive("%s: %d different ASCII constants guard the walk (%s)" % (fn.path, len(keys), keys))
     if not keys and reach_sink({}) is not None:
         bad = [(reach_sink({}), {})]
     bad = [b_[0] for b_ in bad]
-    if bad:
-        ctx.violation("fuzzy_greedy::<impl Matcher>::fuzzy_match_greedy_|walk-bypassed|1", site(fn, bad[0]),
-                      "calculate_score is reachable without the walk over needle[1..] on a path that is not restricted to ASCII x ASCII: for a code-point haystack the window "
-                      "was only checked for its first and last character, so Some(score) with a truncated / wrong index list is returned for haystacks that do not contain the needle")
-    else:
-        ctx.ok(site(fn, sinks[0]), "every non-ASCII path to calculate_score passes the success exit of a complete walk over needle[1..] (%d walk exit(s))" % len(succ))
+    return bad, len(succ)
+
+
+def rule_greedy_complete(ctx):
+    """`calculate_score` never rejects, and the non-ASCII prefilter only looks at the first and last needle character:
+    somebody has to walk needle[1..] before a greedy window is scored.  Unless both strings are ASCII (prefilter_ascii
+    has walked the needle), every path to the scorer passes the success exit of a complete walk over needle[1..] --
+    in the greedy matcher itself or, if that function takes its window on trust (contract moved to the callers), on
+    every path to each of its non-ASCII call sites, followed up the call graph."""
+    facts = ctx.facts
+    G = "fuzzy_greedy::<impl Matcher>::fuzzy_match_greedy_"
+    fn = get_fn(facts, M, G)
+    nl = [l for l in range(1, fn.arg_count + 1) if fn.names.get(l) == "needle"]
+    if not nl:
+        raise Inconclusive("fuzzy_match_greedy_: no `needle` parameter")
+    sinks = [bi for bi, t in fn.calls(lambda t: callee(t) == "score::<impl Matcher>::calculate_score")]
+    if not sinks:
+        raise Inconclusive("fuzzy_match_greedy_: no calculate_score call")
+
+    def param_pred(f_, l_):
+        def pred(e, depth=0):
+            e = strip_casts(e)
+            if depth > 12 or not isinstance(e, tuple) or not e:
+                return False
+            if e[0] == "arg":
+                return e[1] == l_
+            if e[0] in ("ref", "deref", "field", "downcast"):
+                return pred(e[1], depth + 1)
+            if e[0] == "cast":
+                return pred(e[2], depth + 1)
+            if e[0] == "call" and e[2]:
+                return pred(e[2][0], depth + 1)
+            return False
+        return pred
+    bad, nw = _walk_bypass(facts, fn, sinks, param_pred(fn, nl[0]))
+    if not bad:
+        ctx.ok(site(fn, sinks[0]), "every non-ASCII path to calculate_score passes the success exit of a complete walk over needle[1..] (%d walk exit(s))" % nw)
+        return
+    # the greedy matcher itself does not (always) walk: every caller has to
+    todo = [(G, nl[0] - 1, 0)]
+    seen = set()
+    n_sites = 0
+    while todo:
+        callee_path, needle_pos, depth = todo.pop()
+        if (callee_path, needle_pos) in seen:
+            continue
+        seen.add((callee_path, needle_pos))
+        sites_ = calls_to(facts, M, lambda t_: callee(t_) == callee_path)
+        if not sites_:
+            ctx.violation("%s|walk-bypassed|1" % callee_path, site(get_fn(facts, M, callee_path), 0),
+                          "%s scores a window without a complete walk over needle[1..] on a path that is not restricted to ASCII x ASCII, and it is an entry point" % callee_path)
+            continue
+        for f2, bi, t in sites_:
+            n_sites += 1
+            fa = [str(x) for x in (t.get("fn_args") or [])] if isinstance(t.get("fn_args"), list) else [x.strip() for x in str(t.get("fn_args") or "").strip("[]").split(",")]
+            if len(fa) >= 2 and fa[-2].endswith("AsciiChar") and fa[-1].endswith("AsciiChar"):
+                ctx.ok(site(f2, bi), "ASCII x ASCII instantiation: prefilter_ascii has walked the needle")
+                continue
+            needle_e = strip_casts(f2.expr_of_operand(t["args"][needle_pos]))
+            while needle_e[0] in ("ref", "deref"):
+                needle_e = strip_casts(needle_e[1])
+
+            def pred(e, depth_=0, needle_e=needle_e):
+                e = strip_casts(e)
+                if depth_ > 12 or not isinstance(e, tuple) or not e:
+                    return False
+                if repr(e) == repr(needle_e):
+                    return True
+                if e[0] in ("ref", "deref", "field", "downcast"):
+                    return pred(e[1], depth_ + 1)
+                if e[0] == "cast":
+                    return pred(e[2], depth_ + 1)
+                if e[0] == "call" and e[2]:
+                    return pred(e[2][0], depth_ + 1)
+                return False
+            bad2, nw2 = _walk_bypass(facts, f2, [bi], pred)
+            if not bad2:
+                ctx.ok(site(f2, bi), "%s is called only behind a complete walk over needle[1..] (or for ASCII x ASCII)" % callee_path.rsplit("::", 1)[1])
+                continue
+            # forward the obligation if the needle is a parameter of the caller and the caller is internal
+            if needle_e[0] == "arg" and depth < 3 and not str(f2.b.get("vis", "")).startswith("Public") and f2.b.get("kind") != "Closure":
+                todo.append((f2.path, needle_e[1] - 1, depth + 1))
+                continue
+            ctx.violation("%s|walk-bypassed|%s" % (f2.path, callee_path.rsplit("::", 1)[1]), site(f2, bi),
+                          "%s reaches %s (which scores its window with the never-rejecting calculate_score) without a complete walk over needle[1..] on a path that is not "
+                          "restricted to ASCII x ASCII: for a code-point haystack only the first and last needle character were looked for, so Some(score) with a truncated / "
+                          "wrong index list is returned for haystacks that do not contain the needle" % (f2.path, callee_path.rsplit("::", 1)[1]))
+    ctx.floor("call sites followed for the walk obligation", n_sites, 1)
 
 
 def rule_char_eq_exact(ctx):
